@@ -183,3 +183,7 @@ mod tests {
         Ok(())
     }
 }
+
+#[cfg(kani)]
+#[path = "/verif/harness/bam/record_data.rs"]
+mod verif_kani;
